@@ -211,6 +211,14 @@ pub fn supervise(ctx: &Ctx, rep: &mut Report, tag: &str, nchunks: usize, describ
         for end in ends {
             match end {
                 WorkerEnd::Done(v) => merge_worker_json(rep, &v),
+                // SIGHUP / SIGINT / SIGQUIT / SIGKILL / SIGTERM are sent from outside (an operator, the OOM killer, a
+                // time limit), never raised by a fault of the code under test (SIGSEGV, SIGBUS, SIGABRT, SIGILL, SIGFPE):
+                // an infrastructure problem (exit 2), not a verdict
+                WorkerEnd::Crashed { signal, fields, payload, .. } if matches!(signal, 1 | 2 | 3 | 9 | 15) => {
+                    let (msg, _) = describe(&fields, &payload);
+                    rep.notes.push(format!("INFRA: worker process killed from outside by signal {signal} while running: {msg}"));
+                    ok = false;
+                },
                 WorkerEnd::Crashed { signal, fields, payload, .. } => {
                     let (msg, case) = describe(&fields, &payload);
                     rep.violation("process-death", format!("worker process killed by signal {signal} while running: {msg}"), case);
